@@ -33,7 +33,7 @@ ASSUMPTIONS = [
     "content of an operation = machines, duration, job id, position, operation id; "
     "two machine lists with the same members in a different order are not compared",
 ]
-REQUIRED_COUNTERS = {"equal_pairs": 200, "different_pairs": 500, "transitivity_triples": 100,
+REQUIRED_COUNTERS = {"same_id_other_structure_pairs": 30, "equal_pairs": 200, "different_pairs": 500, "transitivity_triples": 100,
                      "kind_operation": 100, "kind_scheduled_operation": 100,
                      "kind_schedule": 100, "kind_instance": 100}
 WORKERS = {"quick": 1, "thorough": 8}
@@ -163,6 +163,15 @@ def run_case(ctx, case):
                  [i, k])
     mut, what = mutate_instance(inst, rng)
     M = gen.build(mut)
+    opsM = [o for job in M.jobs for o in job]
+    L = Laws(ctx, "operation")
+    for i2 in range(min(len(opsA), len(opsM))):
+        a, b = opsA[i2], opsM[i2]
+        same_payload = a.machines == b.machines and a.duration == b.duration
+        if same_payload and (a.job_id, a.position_in_job) != (b.job_id, b.position_in_job):
+            # same id, machines and duration, but another place in the job structure
+            L.expect(a, b, False, "job structure (same id and payload, other job/position)", [i2])
+            ctx.count("same_id_other_structure_pairs")
     # ---------------------------------------------------------------- instances
     L = Laws(ctx, "instance")
     L.expect(A, B, True, "independent copy (other name)", None)
